@@ -207,7 +207,7 @@ def parse_terse(out):
     return res
 
 
-MEMCLASS_RE = re.compile(r"dereference failure|pointer|object bounds|deallocated|dead object|free|dealloc|memcpy|memmove|memset|memcmp|invalid|misaligned|uninit|double|never freed|with overflow|arithmetic overflow|offset|unwinding|same object|rust_alloc|rust_realloc|undefined|unreachable code", re.I)
+MEMCLASS_RE = re.compile(r"dereference failure|pointer|object bounds|deallocated|dead object|free|dealloc|memcpy|memmove|memset|memcmp|invalid|misaligned|uninit|double|never freed|with overflow|arithmetic overflow|offset|unwinding|same object|rust_alloc|rust_realloc|undefined|unreachable code|intrinsic assumption|unsafe precondition|assumption failed", re.I)
 
 
 FRAME_RE = re.compile(r"is assignable|assigns clause|is freeable", re.I)
